@@ -19,7 +19,8 @@ Fingerprints (a fingerprint names the class of failing input, see DESIGN.md sect
   C20:relative-root-rejected       in-memory cache whose root is not the canonical absolute spelling (relative, trailing
                                    slash, empty) + foreach => "file caches have different root directory"   (finding F15,
                                    fixed in 5d35fc8: kept as a regression detector)
-  C20:memory-cache-needs-disk      every file is in the in-memory cache, yet Parse fails reading a sub-workflow from disk
+  C20:memory-cache-needs-disk      the in-memory cache holds the file, yet Parse fails reading it from disk (fixed: Parse hands the
+                                   caller's cache to the sub-workflow discovery; kept as a regression detector)
   C20:nesting-dependent            the direct result differs from what the tree denotes (oracle), i.e. depends on depth/sharing
   C20:context-spelling-dependent   context API: relative / "." / unclean spelling of the same directory gives another result
   C20:exit-code                    CLI exit code differs from the table (0 ok, 1 invalid, 2 error output, 3 run failed)
@@ -28,7 +29,7 @@ Fingerprints (a fingerprint names the class of failing input, see DESIGN.md sect
 
 T = "Arca.Props.C20."
 PIN = ["engine_workflowEngine_Parse", "engine_workflowEngine_RunWorkflow", "engine_engineWorkflow_Run",
-       "engine__StepWorkflowPaths", "engine__SubworkflowCache", "engine__subworkflowCache",
+       "engine__StepWorkflowPaths", "engine__SubworkflowCache", "engine__subworkflowCache", "engine__checkSubworkflowCycles",
        "loadfile_loadfile__MergeFileCaches", "loadfile_loadfile__NewFileCacheUsingContext", "infer_infer__OutputSchema"]
 
 
@@ -50,13 +51,16 @@ def _canon(v):
 
 def _slim(case, variant=None):
     keep = ("id", "depth", "shared", "subdirs", "explicit", "uses_readfile", "version_supported", "input_yaml", "behaviours",
-            "expected", "direct", "missing_on_disk", "mod_file")
+            "expected", "direct", "missing_on_disk", "mod_file", "disk")
     c = {k: case.get(k) for k in keep if k in case}
     tree = case.get("tree") or {}
     c["files"] = {f: _render_hint(n) for f, n in (tree.get("nodes") or {}).items()}
     c["root_yaml"] = (case.get("yaml") or "")[:1500]
     if variant is not None:
         c["variant"] = variant
+        b = (case.get("baselines") or {}).get(variant.get("baseline")) or {}
+        if b:
+            c["baseline"] = {"name": variant.get("baseline"), "sub": b.get("sub"), "result": b.get("result")}
     return c
 
 
@@ -172,10 +176,13 @@ def mon_c20_engineapi(case, verdict, chk):
                           "loadfile.NewFileCache(%r, ...) (%s root) + foreach: Parse fails with 'file caches have different root directory'; "
                           "the canonical absolute spelling of the same directory works" % (v.get("root_given"), v.get("root_class")), rep)
             continue
-        if v.get("api") == "memory" and r.get("err_class") == "readError" and (v.get("disk") == "none" or case.get("missing_on_disk")):
+        if v.get("api") == "memory" and r.get("err_class") == "readError":
+            # the direct run on the same files (the supplied ones plus, where there is a context directory, its copies of
+            # the others) does not fail like this: Parse looked on disk for a file the caller supplied
             chk.violation("C20:memory-cache-needs-disk",
-                          "every workflow file is in the in-memory file cache, yet Parse fails because sub-workflow discovery reads "
-                          "the files from disk (and then prefers the in-memory copy)", rep)
+                          "in-memory file cache holding %s of the files (%s): direct preparation of the files that are going to be "
+                          "used works, yet Parse fails reading a file from disk" %
+                          (v.get("supplied") or "all", "no context directory on disk" if v.get("disk") == "none" else "the others are in the context directory"), rep)
             continue
         chk.violation("C20:engine-differs-from-direct", "variant %s: engine %s, direct %s" % (v["name"], _res_key(r)[:2], _res_key(base)[:2]), rep)
 
@@ -233,6 +240,9 @@ SPEC = {
         T + "error_flag_exact", T + "error_flag_declared", T + "error_flag_on_error", T + "runWorkflow_parse_error_is_error",
         T + "default_file_name", T + "missing_workflow_file",
         T + "engine_equals_direct", T + "engine_equals_direct_partial", T + "unsupported_version_rejected", T + "caller_copy_wins",
+        T + "parse_rejects_cycles_in_used_files", T + "prepared_contents_acyclic", T + "cyclic_copy_over_acyclic_disk_copy",
+        T + "parseFiles_supplied", T + "runWorkflow_supplied", T + "engine_equals_direct_supplied", T + "supplied_cycle_reported",
+        T + "engine_equals_direct_supplied_acyclic", T + "supplied_cache_ignores_disk", T + "memory_cache_needed_disk",
         T + "cwd_independent",
         T + "merge_last_wins", T + "merge_order_independent_partial", T + "merge_order_dependent_without_agreement",
         T + "loaded_caches_agree", T + "merge_root_mismatch_rejected", T + "merge_empty_root_bridges_directories",
@@ -255,6 +265,8 @@ SPEC = {
              "sub-workflows, sub-directories, output ids from {success, failure, error, done}, explicit / partial / inferred output schemas, "
              "scripted plugin outcomes) written to a fresh context directory and run through engine.RunWorkflow / Parse+Run with the context "
              "and in-memory file-cache APIs (absolute, relative, '.', unclean and empty root spellings; three working directories; default "
-             "file name; in-memory copy different from disk; files missing on disk) and directly through Prepare+Execute; distinct = distinct "
+             "file name; in-memory copy different from disk; files missing on disk; in-memory cache for a directory that does not exist; "
+             "in-memory cache holding only some of the sub-workflows or only the referring ones, the others in the context directory) "
+             "and directly through Prepare+Execute; distinct = distinct "
              "tree + input + behaviours; non-trivial = depth >= 2, shared sub-workflow, explicit schema or a result other than 'success'"),
 }
